@@ -9,6 +9,7 @@ import (
 	"errors"
 	"net"
 	"sync"
+	"sync/atomic"
 	"time"
 
 	"github.com/insomniacslk/dhcp/dhcpv6"
@@ -38,8 +39,8 @@ type verifConn struct {
 	wdl      int64         // write deadline as a virtual instant (0: none), as net.PacketConn specifies
 	// set by a harness when Client.Close has returned: a ReadFrom that STARTS after that is a
 	// receive loop that Close did not wait for
-	closeReturned bool
-	lateReads     int
+	closeReturned uint32
+	lateReads     uint32
 }
 
 func newVerifConn() *verifConn {
@@ -52,11 +53,9 @@ var errVerifWriteTimeout = errors.New("verif: write: i/o timeout")
 var errVerifReadFault = errors.New("verif: read failed")
 
 func (c *verifConn) ReadFrom(b []byte) (int, net.Addr, error) {
-	c.mu.Lock()
-	if c.closeReturned {
-		c.lateReads++
+	if atomic.LoadUint32(&c.closeReturned) != 0 {
+		atomic.AddUint32(&c.lateReads, 1)
 	}
-	c.mu.Unlock()
 	select {
 	case d := <-c.in:
 		n := copy(b, d.data)
